@@ -58,13 +58,14 @@ type Frame struct {
 	tmap     map[string]types.Type // type parameter substitution (by name)
 	recvName string
 	// for spec evaluation at returns
-	entry      *State
-	params     map[string]Val // entry values of params (by name)
-	defers     []*ast.CallExpr
-	loopIdx    map[int]*Cell // hidden index cells of range loops by ordinal
-	closures   map[types.Object]*ast.FuncLit
-	ghostCells map[string]*Cell
-	callOrds   map[*ast.CallExpr]int
+	entry       *State
+	params      map[string]Val // entry values of params (by name)
+	defers      []*ast.CallExpr
+	loopIdx     map[int]*Cell // hidden index cells of range loops by ordinal
+	closures    map[types.Object]*ast.FuncLit
+	ghostCells  map[string]*Cell
+	callOrds    map[*ast.CallExpr]int
+	loopEntries map[int]*State // state at first entry of loop N (for entry(N, e) in invariants)
 }
 
 func NewInterp(w *World) *Interp {
